@@ -344,6 +344,8 @@ type c05APIOp struct {
 type c05API struct {
 	Gs  int        `json:"gs"`
 	Ops []c05APIOp `json:"ops"`
+	// Listeners: Serve is given that many more (idle) listeners
+	Listeners int `json:"listeners,omitempty"`
 }
 
 func c05APIProp(t *testing.T, r *hx.Run) func(c c05API) hx.Verdict {
@@ -411,6 +413,7 @@ func c05APIProp(t *testing.T, r *hx.Run) func(c c05API) hx.Verdict {
 								mu.Lock()
 								served = true
 								mu.Unlock()
+								w.ExtraListeners(c.Listeners)
 								w.Serve()
 							})
 						case "close":
@@ -467,7 +470,7 @@ func c05APIProp(t *testing.T, r *hx.Run) func(c c05API) hx.Verdict {
 }
 
 func genC05API(rt *rapid.T) c05API {
-	c := c05API{Gs: rapid.IntRange(1, 4).Draw(rt, "gs")}
+	c := c05API{Gs: rapid.IntRange(1, 4).Draw(rt, "gs"), Listeners: pick(rt, "listeners", 0, 0, 1, 2)}
 	n := rapid.IntRange(2, 30).Draw(rt, "nops")
 	closed := false
 	for i := 0; i < n; i++ {
